@@ -207,7 +207,132 @@ def modpath_e1(contract_file):
     raise KeyError(contract_file)
 
 
+# --------------------------------------------------------------------------- Verus
+
+VERUS_VERIF_ERRORS = (
+    "postcondition not satisfied", "precondition not satisfied", "assertion failed", "possible arithmetic underflow/overflow",
+    "possible division by zero", "possible bit shift underflow/overflow", "invariant not satisfied",
+    "decreases not satisfied", "loop invariant", "possible truncation", "unreachable", "assertion failure",
+)
+
+
+class VerusEngine:
+    """Single-file Verus units assembled on every run from templates + the real text of /repo."""
+    name = "ev"
+    contracts_glob = "contracts/verus/*.rs.tmpl"
+    describe = "Verus 0.2026.09.13 (Z3) on single-file units assembled mechanically from the real function text (tools/vassemble.py)"
+
+    def run(self, harnesses, tier, log):
+        import vassemble, extract
+        res, srcs, cmds = {}, {}, []
+        trusted = ["Verus 0.2026.09.13 / Z3 (SMT, mathematical integers with explicit machine-range obligations)",
+                   "vstd specifications of std items used by the extracted code (u32::try_from, Option/Result::unwrap, slice get/last, is_multiple_of, shifts)",
+                   "the single-file unit replaces the crate context: constants re-declared in the template are checked against /repo by the Kani harness c29_epoch_table"]
+        os.makedirs(os.path.join(VERIF, ".work", "verus"), exist_ok=True)
+        for h in harnesses:
+            t0 = time.time()
+            unit = h["name"]
+            out_rs = os.path.join(VERIF, ".work", "verus", unit + ".rs")
+            try:
+                text, linemap, manifest = vassemble.assemble(h["file"])
+            except extract.AnchorLost as e:
+                res[unit] = {"status": "undecided", "reason": f"extraction anchor lost: {e}", "failed_obligations": []}
+                continue
+            open(out_rs, "w").write(text)
+            srcs[unit] = manifest
+            cmd = ["verus", out_rs, "--output-json", "--time", "--multiple-errors", "20", "--rlimit", "60" if tier == "quick" else "240"]
+            cmds.append(" ".join(cmd))
+            tmo = h["timeout"] * (1 if tier == "quick" else 4)
+            p = subprocess.run(cmd, stdout=subprocess.PIPE, stderr=subprocess.PIPE, text=True, env=ENV,
+                               timeout=None if tmo is None else tmo + 60, errors="replace")
+            try:
+                js = json.loads(p.stdout[p.stdout.index("{"):])
+            except Exception:  # noqa: BLE001
+                js = {}
+            vr = js.get("verification-results", {})
+            err = p.stderr
+            blocks = re.split(r"\n(?=error)", "\n" + err)
+            f_obs, u_obs, fchecks = [], [], []
+            lines = text.split("\n")
+            for b in blocks:
+                m = re.match(r"error(\[E\d+\])?: (.*)", b.strip())
+                if not m or m.group(2).startswith("aborting due to"):
+                    continue
+                msg = m.group(2).strip()
+                loc = re.search(r"--> [^:\n]+:(\d+):(\d+)", b)
+                ln = int(loc.group(1)) if loc else 0
+                fn = "?"
+                for k in range(ln - 1, 0, -1):
+                    fm = re.search(r"\bfn\s+([A-Za-z0-9_]+)", lines[k - 1]) if k - 1 < len(lines) else None
+                    if fm:
+                        fn = fm.group(1)
+                        break
+                origin = linemap.get(ln, ("?",))
+                clause = lines[ln - 1].strip() if 0 < ln <= len(lines) else ""
+                is_verif = any(msg.startswith(x) or x in msg for x in VERUS_VERIF_ERRORS) and not m.group(1)
+                if "rlimit" in msg.lower() or "resource limit" in msg.lower():
+                    u_obs.append(f"{unit}.{fn}: solver resource limit ({msg})")
+                elif is_verif:
+                    ob = f"VERUS.{unit}.{fn}: {msg} [{clause[:120]}]"
+                    f_obs.append(ob)
+                    fchecks.append({"description": ob, "verus_error": b.strip()[:1500], "origin": list(origin)})
+                else:
+                    u_obs.append(f"{unit}.{fn}: verus could not process the unit ({msg[:160]}) at assembled line {ln}")
+            verified = vr.get("verified", 0)
+            errors = vr.get("errors", 0)
+            smt = js.get("times-ms", {}).get("smt", {})
+            if f_obs:
+                status, reason = "failed", ""
+            elif u_obs or not vr.get("success", False):
+                status = "undecided"
+                reason = "; ".join(u_obs) or ("verus did not report success: " + err[-400:])
+            else:
+                status, reason = "passed", ""
+            if status == "passed" and verified == 0:
+                status, reason = "undecided", "zero functions verified (vacuity guard)"
+            fnames = []
+            for fb in js.get("times-ms", {}).get("smt", {}).get("smt-run-module-times", []):
+                for f in fb.get("function-breakdown", []):
+                    fnames.append(f.get("function", "?").split("::")[-1])
+            res[unit] = {
+                "id": unit, "status": status, "reason": reason,
+                "failed_obligations": sorted(set(f_obs)), "undecided_obligations": [] if status == "undecided" else u_obs,
+                "failed_checks": fchecks, "unsat_covers": [], "covers_sat": 0,
+                "obligations": verified + errors, "discharged": verified,
+                "named": sorted(set("verus fn " + x for x in fnames))[:80],
+                "back_end": "Verus %s / Z3" % js.get("verus", {}).get("version", "?"),
+                "solver_s": smt.get("total", 0) / 1000.0, "wall_s": time.time() - t0, "stubs_applied": [],
+            }
+        return {"unit": {"cmd": "; ".join(cmds), "sources": {"engine": "EV: items extracted by tools/extract.py from /repo on this run", "items": srcs},
+                         "trusted": trusted, "assumptions": []},
+                "harnesses": res}
+
+    def counterexample(self, h, log, want_desc=None):
+        """Verus gives no model; try the paired Kani harnesses (//# cex:) for a concrete input."""
+        from main import discover
+        names = [x.strip() for v in h.get("cex", []) for x in v.split(",") if x.strip()]
+        allh = {x["name"]: x for x in discover()}
+        for n in names:
+            kh = allh.get(n)
+            if not kh:
+                continue
+            eng = ENGINES[kh["engine"]]
+            kh = dict(kh, timeout=min(kh["timeout"], 120))
+            cex = eng.counterexample(kh, log, None)
+            if cex and cex.get("values"):
+                cex["via"] = kh
+                return cex
+        return {"values": None, "raw": "no paired Kani harness produced a counterexample"}
+
+    def native_replay(self, h, values, log):
+        via = h.get("_via")
+        if not via:
+            return {"reproduced": False, "error": "no concrete input"}
+        return ENGINES[via["engine"]].native_replay(via, values, log)
+
+
 ENGINES = {
+    "ev": VerusEngine(),
     "e1": KaniEngine("e1", "contracts/ordinals/*_contracts.rs", prepare_e1, modpath_e1,
                      os.path.join(VERIF, "replay", "e1_runner"), "--cfg ordinals_ord_verif"),
 }
